@@ -434,13 +434,13 @@ boost::optional<ndsize_t> getSetIndex(const double position, std::vector<std::st
         
 
         bool equals = tmp == position;
-        index = (match == PositionMatch::Greater && equals) ? static_cast<ndsize_t>(tmp + 1) : static_cast<ndsize_t>(tmp);
+        index = (match == PositionMatch::Greater && equals) ? static_cast<ndsize_t>(tmp) + 1 : static_cast<ndsize_t>(tmp);
     } else if (match == PositionMatch::Less || match == PositionMatch::LessOrEqual) {
         tmp = floor(position);
         bool equals = tmp == position;
         if (match == PositionMatch::Less && equals) { 
             if (tmp >= 1) {
-                index = static_cast<ndsize_t>(tmp - 1);
+                index = static_cast<ndsize_t>(tmp) - 1;
             } 
         } else {
             index = static_cast<ndsize_t>(tmp);
@@ -831,13 +831,13 @@ boost::optional<ndsize_t> getDataFrameIndex(const double position, const ndsize_
         }
 
         bool equals = tmp == position;
-        index = (match == PositionMatch::Greater && equals) ? static_cast<ndsize_t>(tmp + 1) : static_cast<ndsize_t>(tmp);
+        index = (match == PositionMatch::Greater && equals) ? static_cast<ndsize_t>(tmp) + 1 : static_cast<ndsize_t>(tmp);
     } else if (match == PositionMatch::Less || match == PositionMatch::LessOrEqual) {
         tmp = floor(position);
         bool equals = tmp == position;
         if (match == PositionMatch::Less && equals) { 
             if (tmp >= 1) {
-                index = static_cast<ndsize_t>(tmp - 1);
+                index = static_cast<ndsize_t>(tmp) - 1;
             } 
         } else {
             index = static_cast<ndsize_t>(tmp);
